@@ -914,7 +914,10 @@ fn check_window(cx: &Ctx17, w: &Window, notes: &mut Notes) -> Result<(), String>
         let lm = LineModel::new(src, !w.secondary);
         let al = alignments(&lm, shown);
         if al.is_empty() {
-            let trimmed = !w.secondary && renderer_trimmed(shown);
+            // (or, on a line wide enough for the renderer's own trimming, a `...` that the input
+            // line does not contain: the marker, wherever the cut put it among wide and
+            // zero-width characters)
+            let trimmed = !w.secondary && (renderer_trimmed(shown) || (sw(&lm.full) >= 120 && shown.contains("...") && !lm.full.contains("...")));
             if trimmed {
                 notes.trimmed_by_renderer = true;
                 if *n == l {
@@ -1026,9 +1029,9 @@ fn check_window(cx: &Ctx17, w: &Window, notes: &mut Notes) -> Result<(), String>
             }
         }
         let left_trim = shown.starts_with("...");
-        let right_trim = !left_trim || shown.chars().rev().take(6).collect::<String>().contains("...");
+        let right_trim = !left_trim || shown.chars().rev().take(12).collect::<String>().contains("...");
         let width = sw(shown);
-        if (left_trim && d < 4) || (right_trim && d + 8 >= width) {
+        if (left_trim && d < 4) || (right_trim && d + 14 >= width) {
             notes.caret_skipped.push("caret on a trim marker");
             return Ok(());
         }
@@ -1123,8 +1126,9 @@ fn check_window(cx: &Ctx17, w: &Window, notes: &mut Notes) -> Result<(), String>
 /// annotate-snippets cut the line itself (lines wider than its 140-column budget): `...` at the
 /// start and / or at the end (zero-width characters may trail the end marker)
 fn renderer_trimmed(shown: &str) -> bool {
-    // (wide or zero-width characters at the cut can leave a stray character after the end marker)
-    let tail: String = shown.chars().rev().take(6).collect::<Vec<_>>().into_iter().rev().collect();
+    // (wide or zero-width characters at the cut can leave stray characters after the end marker:
+    // up to 4 were seen, two of them combining marks - libFuzzer artifact)
+    let tail: String = shown.chars().rev().take(12).collect::<Vec<_>>().into_iter().rev().collect();
     shown.starts_with("...") || (sw(shown) >= 100 && tail.contains("..."))
 }
 
